@@ -64,6 +64,8 @@ def plan(seed, subbatch):
             hexcfg["timeframe_fill"] = True
     if kind == "hexital" and sub_rng(seed, "add-later").random() < 0.15:
         hexcfg["add_later"] = True     # the Hexital is built empty, members arrive through add_indicator
+    if kind == "hexital" and sub_rng(seed, "via-member").random() < 0.2:
+        hexcfg["via_member"] = True    # calculate / purge / recalculate of ONE member are called on the member object
     n = planlib.pick_n(cfg, (3, 15), (10, 60), (30, 150))
     if subbatch == "calm":
         faults, burst = {}, None
